@@ -179,6 +179,9 @@ func (r *Report) finish(workdir string) int {
 	violations := 0
 	var knownHit []string
 	replayDir := filepath.Join(*flagVerif, "replay")
+	if *flagReplayDir != "" {
+		replayDir = *flagReplayDir
+	}
 	// vacuity
 	vacuous := []string{}
 	failedFn := map[string]bool{}
